@@ -552,6 +552,8 @@ META_KINDS = ["none", "raw_bytes", "permissive", "restrictive", "required_foreig
 
 def set_table_metadata(table, kind, rng):
     n = table.num_rows
+    table.drop_metadata()
+    table.metadata_schema = tskit.MetadataSchema(None)
     if kind == "none":
         return
     if kind == "raw_bytes":
